@@ -9,9 +9,10 @@ Tie (what is REAL here):
   compared with the Lean model (`Driver/C09.lean`, level 1).
 * level 2: the real ``Compiler.compile`` / ``Compiler.compile_in_tx`` /
   ``_try_compile_ast`` / ``_compile_dispatch_ql`` / ``_compile_ql_transaction`` /
-  ``_compile_ql_sess_state`` / ``_make_query_unit`` and the real
-  ``compiler_pool.worker.compile_in_tx`` (pickle transport and REUSE_LAST_STATE_MARKER) are
-  run on hand-built ASTs.  What is replaced because the native parts are not built in this
+  ``_compile_ql_sess_state`` / ``_make_query_unit`` are run on hand-built ASTs, reached through
+  the REAL compiler pool (a ``pool.FixedPool`` object: ``compile`` / ``compile_in_tx`` with the
+  REUSE_LAST_STATE_MARKER decision and the failed-call handling) and REAL ``compiler_pool/worker.py``
+  instances (``lib/c17rig.py``: only the socket is replaced).  What is replaced because the native parts are not built in this
   sandbox: the parser (``edgeql.parse_block`` returns the prepared ASTs), the DDL / CONFIGURE /
   query compilers (stubs that perform the real ``update_schema`` / ``update_session_config``
   calls and return real ``DDLQuery`` / ``SessionStateQuery`` / ``NullQuery`` objects),
@@ -28,6 +29,7 @@ from __future__ import annotations
 
 import shim  # noqa: F401  (must come first: stubs for the native modules)
 
+import asyncio
 import itertools
 import json
 import pickle
@@ -58,8 +60,6 @@ from edb.server.config import spec as cspec  # noqa: E402
 from edb.server.config import ops as cops  # noqa: E402
 from edb.server.compiler import compiler as C  # noqa: E402
 from edb.server.compiler import dbstate, enums  # noqa: E402
-from edb.server.compiler_pool import worker as W  # noqa: E402
-from edb.server.compiler_pool import state as pool_state  # noqa: E402
 
 from lib import core  # noqa: E402
 
@@ -72,7 +72,9 @@ REQUIRED = [
     'EdbVerif.C09.protocol_refines', 'EdbVerif.C09.protocol_step', 'EdbVerif.C09.pickle_rejected_keeps_state',
     'EdbVerif.C09.protocol_release_shadowed_counterexample', 'EdbVerif.C09.protocol_release_fault_counterexample',
     'EdbVerif.C09.protocol_declare_fault_counterexample', 'EdbVerif.C09.protocol_start_fault_counterexample',
-    'EdbVerif.C09.reuse_script_counterexample',
+    'EdbVerif.C09.reuse_fixed_compiles_on_callers_state', 'EdbVerif.C09.reuse_fixed_rejected_script',
+    'EdbVerif.C09.reuse_fixed_is_pickle', 'EdbVerif.C09.protocol_refines_reuse',
+    'EdbVerif.C09.reuse_script_counterexample_poolBuggy',
 ]
 
 E = immutables.Map()
@@ -597,7 +599,6 @@ class Env:
         self._saved = {k: getattr(C, k) for k in
                        ('edgeql', 'ddl', '_compile_ql_config_op', '_compile_ql_query', 'qlcompiler')}
         self._saved_req = C.rpc.__dict__.get('CompilationRequest')
-        self._saved_compiler = getattr(W, 'COMPILER', None)
         real_edgeql = C.edgeql
         real_parse = real_edgeql.parse_block
         standin = mode == 'standin'
@@ -629,7 +630,6 @@ class Env:
             benv.setup()
             self.compiler = benv.new_compiler()
             self.codec = BridgeCodec()
-        W.COMPILER = self.compiler
 
     def _install_standins(self):
         def stub_ddl(ctx, ql, source=None):
@@ -690,39 +690,65 @@ class Env:
             setattr(C, k, v)
         if self._saved_req is not None:
             C.rpc.CompilationRequest = self._saved_req
-        W.COMPILER = self._saved_compiler
-        W.LAST_STATE = None
 
 
 class Pool:
-    """`compiler_pool.pool.compile` / `compile_in_tx` for a single worker: which bytes go over
-    the wire; the calls themselves are the real `worker` functions where they can run."""
+    """The REAL compiler pool: a `pool.FixedPool` object (`compile`, `compile_in_tx` with its
+    REUSE_LAST_STATE_MARKER decision and its handling of failed calls, `_compute_compile_preargs`,
+    the worker queue, `BaseWorker.call`) talking to REAL instances of `compiler_pool/worker.py`
+    (`compile`, `compile_in_tx`, `__sync__`, LAST_STATE) through the request loop of
+    `worker_proc.py`, over the in-process transport of `lib/c17rig.py` (the socket is the only
+    thing replaced).  The workers' COMPILER is this stream's real `Compiler`.
 
-    def __init__(self, env: Env, transport: str):
+    transport 'r': one worker — the pool sends the marker whenever it decides to;
+    transport 'p': two workers served alternately, so the serving worker never holds the
+    caller's state and the pickled bytes always travel."""
+
+    def __init__(self, env: Env, transport: str, user_pickle, global_pickle):
+        from lib import c17rig as R
         self.env = env
         self.transport = transport
-        self.worker_last_pickled = None
-        W.LAST_STATE = None
+        self.nw = 2 if transport == 'p' else 1
+        self.loop = asyncio.new_event_loop()
+        self.rig = R.Rig(self.loop, 'fixed', self.nw, {'db': (user_pickle, E, E)}, global_pickle, E)
+        self.loop.run_until_complete(self.rig.attach())
+        for wm in self.rig.wmods:
+            wm.COMPILER = env.compiler
+        self.turn = 0
+
+    def _call(self, mk):
+        async def go():
+            held = await self.rig.isolate(self.turn) if self.nw > 1 else []
+            try:
+                return await mk()
+            finally:
+                self.rig.give_back(held, [True] * len(held))
+        try:
+            return self.loop.run_until_complete(go())
+        finally:
+            self.turn = (self.turn + 1) % self.nw
 
     def compile(self, user_pickle, global_pickle, req):
-        # worker.compile(): __sync__ (C17's subject) + COMPILER.compile_serialized_request
-        units, cstate = self.env.compiler.compile(
-            user_schema=pickle.loads(user_pickle), global_schema=pickle.loads(global_pickle),
-            reflection_cache=E, database_config=E, system_config=E, request=req)
-        W.LAST_STATE = cstate
-        pickled = pickle.dumps(cstate, -1) if cstate is not None else None
-        self.worker_last_pickled = pickled
-        return units, pickled
+        r = self._call(lambda: self.rig.pool.compile(
+            'db', user_pickle, global_pickle, E, E, E, req.serialize(), req.source.text()))
+        return r[0], r[1]
 
     def compile_in_tx(self, root_pickle, txid, pickled_state, req, expect_rollback):
-        if self.transport == 'r' and self.worker_last_pickled is pickled_state:
-            send, dbname, up = pool_state.REUSE_LAST_STATE_MARKER, None, None
-        else:
-            send, dbname, up = pickled_state, None, root_pickle
-        units, new_pickled = W.compile_in_tx(
-            dbname, up, send, txid, req.serialize(), req.source.text(), expect_rollback)
-        self.worker_last_pickled = new_pickled
-        return units, new_pickled
+        r = self._call(lambda: self.rig.pool.compile_in_tx(
+            'db', root_pickle, txid, pickled_state, 0, req.serialize(), req.source.text(), expect_rollback))
+        return r[0], r[1]
+
+    def effective_state(self, pickled_state, root_pickle):
+        """the state object the next compile_in_tx of the server would work on"""
+        if self.nw == 1 and self.rig.workers[0]._last_pickled_state is pickled_state:
+            return self.rig.wmods[0].LAST_STATE          # the marker would be sent
+        st = pickle.loads(pickled_state)
+        st.set_root_user_schema(pickle.loads(root_pickle))
+        return st
+
+    def close(self):
+        self.rig.close()
+        self.loop.close()
 
 
 class Sim:
@@ -733,9 +759,9 @@ class Sim:
     def __init__(self, env: Env, pl, transport: str):
         u, g, a, c = pl
         self.env = env
-        self.pool = Pool(env, transport)
         self.db_user_schema_pickle = pickle.dumps(CODEC.mk_schema(u), -1)
         self.global_schema_pickle = pickle.dumps(CODEC.mk_schema(g), -1)
+        self.pool = Pool(env, transport, self.db_user_schema_pickle, self.global_schema_pickle)
         self._modaliases = mk_aliases(a)
         self._config = mk_config(c)
         self._last_comp_state = None
@@ -1061,8 +1087,6 @@ def classify_uncovered(evs, upto: int, transport: str = 'p') -> str | None:
     cls = None
     for (stmt, cf, bf) in evs[:upto + 1]:
         w = stmt.split(' ')
-        if '; ' in stmt and transport == 'r' and pg.in_tx:
-            cls = cls or 'reuse-script'
         healthy = pg.in_tx and not pg.failed
         if bf and w[0] == 'S' and not pg.in_tx and not cf:
             cls = cls or 'fault-start'
@@ -1100,8 +1124,6 @@ def run_l2(env: Env, case):
         if len(parts) > 1 and not sim._in_tx:
             outs.append('unmodelled')
             continue
-        if len(parts) > 1:
-            saved = (sim._last_comp_state, sim.pool.worker_last_pickled, W.LAST_STATE)
         outcome, unit = sim.statement(parts, cf, bf)
         if len(parts) > 1 and unit is not None:
             # an accepted script (possible only through the `_try_compile_rollback` escape, which
@@ -1123,13 +1145,9 @@ def run_l2(env: Env, case):
         un = '-' if unit is None else show_unit(unit, T0)
         cs = '-'
         if sim._in_tx and sim._last_comp_state is not None:
-            if transport == 'r' and sim.pool.worker_last_pickled is sim._last_comp_state:
-                st = W.LAST_STATE     # what the next (marker) call will work on
-            else:
-                st = pickle.loads(sim._last_comp_state)
-                st.set_root_user_schema(pickle.loads(sim._in_tx_root_user_schema_pickle))
-            cs = obs(st, T0)
+            cs = obs(sim.pool.effective_state(sim._last_comp_state, sim._in_tx_root_user_schema_pickle), T0)
         outs.append(f'{outcome} @{ag} <{un}> {show_sim(sim, T0)} ~ {cs}')
+    sim.pool.close()
     return '|'.join(outs), bad, (transport, pl, evs)
 
 
@@ -1299,6 +1317,41 @@ WITNESSES = {
 }
 
 
+def real_core_release_shadowed() -> dict:
+    """The compiler-side half of `proto:release-shadowed` on the REAL dbstate classes alone (no
+    server transcription involved): after `SAVEPOINT a; X; SAVEPOINT a; RELEASE a; ROLLBACK TO a`
+    the compiler is at the outer `a`, yet `sync_tx(<id of the released inner a>)` still succeeds
+    and moves it to the inner one (X applied).  What the server contributes is only the id."""
+    R = L1Real((1, 2, 3, 4))
+    st = R.st
+    st.start_tx()
+    a1 = st.current_tx().declare_savepoint('a')
+    st.current_tx().update_modaliases(mk_aliases(7))            # X
+    a2 = st.current_tx().declare_savepoint('a')
+    st.current_tx().release_savepoint('a')
+    st.current_tx().rollback_to_savepoint('a')
+    before = st_payload(st.current_tx()._current)
+    can = st.can_sync_to_savepoint(a2)
+    try:
+        st.sync_tx(a2)
+        after = st_payload(st.current_tx()._current)
+    except Exception as e:  # noqa: BLE001
+        after = 'sync_tx raised ' + type(e).__name__
+    return {'payload_after_rollback_to_outer_a': before, 'released_inner_a_still_in_log': can,
+            'payload_after_sync_tx_to_released_inner_a': after, 'ids': [a1 - R.T0, a2 - R.T0]}
+
+
+def REGRESSIONS():
+    """corpus/C09/regressions.json: histories that once diverged (run first)"""
+    import os
+    path = os.path.join(core.VERIF, 'corpus', 'C09', 'regressions.json')
+    out = []
+    for c in json.load(open(path))['cases']:
+        out.append((c['name'], (c['transport'], tuple(c['payload']),
+                                [(s, bool(cf), bool(bf)) for s, cf, bf in c['events']])))
+    return out
+
+
 # ---------------------------------------------------------------------- run
 def run(ctx: core.Ctx):
     global CODEC
@@ -1333,18 +1386,19 @@ def run(ctx: core.Ctx):
         for k, evs in WITNESSES.items():
             l2_cases.append((('p', (1, 2, 3, 4), [(s, bool(c), bool(b)) for s, c, b in evs]), 'witness:' + k))
         # the REUSE transport on a statement that is rejected after it has written to the state
-        rs = [('S', False, False), ('D 1', False, False), ('L 1; Q', False, False), ('B 1', False, False)]
-        l2_cases.append((('r', (1, 2, 3, 4), rs), 'witness:reuse-script'))
-        l2_cases.append((('p', (1, 2, 3, 4), rs), 'script'))
+        for name, c in REGRESSIONS():
+            l2_cases.insert(0, (c, 'regression'))
+            l2_cases.append(((('p',) + c[1:]), 'regression'))
         for c in gen_l2_scripts(rng, ctx.budget(150, 3000)):
             l2_cases.append((c, 'script'))
         # the same through the REAL parser and compilers (front-end bridge)
-        for c in gen_l2_bridge(rng, ctx.budget(40, 2000), ctx.budget(6, 100)):
+        for c in gen_l2_bridge(rng, ctx.budget(20, 1500), ctx.budget(4, 80)):
             l2b_cases.append((c, 'bridge'))
         l2b_cases.append((('p', (1, 2, 3, 4), [(s.replace('U 5 6', 'U 5 2').replace('U 7 8', 'U 7 2'), bool(c), bool(b))
                                                for s, c, b in WITNESSES['release-shadowed']]),
                           'witness:release-shadowed'))
-        l2b_cases.append((('r', (1, 2, 3, 4), rs), 'witness:reuse-script'))
+        for name, c in REGRESSIONS():
+            l2b_cases.insert(0, (c, 'regression'))
 
     # ---------------- level 1
     lines, reals = [], []
@@ -1466,14 +1520,15 @@ def run(ctx: core.Ctx):
                 'through real Compiler.compile/compile_in_tx + worker transport + transcribed server (level 2); '
                 'non-trivial = declares a savepoint and later releases / rolls back to one; distinct = distinct '
                 'protocol line',
-        'samples': [lines[i] for i in sorted({0, len(lines) // 2, len(lines) - 1})]
-                   + [lines2[i] for i in sorted({0, len(lines2) // 2, len(lines2) - 1})],
+        'samples': [lines[i] for i in sorted({0, len(lines) // 2, len(lines) - 1}) if 0 <= i < len(lines)]
+                   + [lines2[i] for i in sorted({0, len(lines2) // 2, len(lines2) - 1}) if 0 <= i < len(lines2)],
         'real_calls_level1': sum(hist.values()), 'level1_results': hist,
         'level1_streams': _count(s for _, s, _ in l1_cases),
         'level2_statements': sum(hist2.values()), 'level2_outcomes': hist2,
         'level2_streams': _count(s.split(':')[0] for _, s in l2_all),
         'bridge_statements': sum(hist2b.values()), 'bridge_outcomes': hist2b,
         'outside_envelope_divergences': findings,
+        'release_shadowed_compiler_side_on_real_classes_only': real_core_release_shadowed(),
         'divergences_also_seen_through_real_parser_and_compilers': sorted(bridge_confirms),
         'disagreements_model_vs_impl': n_dis,
         'exhaustive': False,
@@ -1490,7 +1545,7 @@ def run(ctx: core.Ctx):
         'new values are outside this property)',
         'the level-1 spec treats the compiler\'s implicit transaction as an open block (ROLLBACK restores its '
         'baseline); autocommit of statements outside a block is a server-level fact (fresh state per compile)',
-        'protocol theorem envelope: pickle transport; backend failures on DDL/alias/config/query statements and '
+        'protocol theorem envelope (pickle transport, and the pool\'s marker transport by reuse_fixed_is_pickle): backend failures on DDL/alias/config/query statements and '
         'COMMIT; compile failures anywhere; no RELEASE that removes a savepoint whose name is also carried by an '
         'enclosing savepoint.  Outside the envelope the check reports concrete divergences as proto:* findings',
         'START MIGRATION / migration rewrite savepoints (uuid-named, declared in implicit transactions) are not modelled',
@@ -1500,6 +1555,8 @@ def run(ctx: core.Ctx):
         'differential run above',
         'server half (dbview.pyx / execute.pyx / binary.pyx are Cython and cannot run here): Python transcription '
         '`Sim` in harness/props/c09.py and Lean `Server`, compared with each other but not with the Cython code',
+        'compiler pool: real FixedPool + real worker.py module instances over the in-process transport of '
+        'harness/lib/c17rig.py (socket replaced)',
         'stand-in stream: stand-ins installed into the compiler module namespace: parser (prepared ASTs), DDL / '
         'CONFIGURE / query compilers (perform the real update_* calls), rpc.CompilationRequest, empty edb.graphql '
         'package; bridge stream: the front-end bridge (harness/bridge) as parser, rpc.CompilationRequest stand-in',
